@@ -436,7 +436,8 @@ def valueFromPart (k : Kind) (p : Part) : Except Exc Value :=
       | .ok (.float v) => .ok (.num v false)
       | _ => .error .valueError
   | .blob =>
-    match text with
+    -- `from_base64(msg.value or "", …)`: an absent payload is the empty payload
+    match some (text.getD []) with
     | none => .error .typeError
     | some t =>
       if !isAscii t then .error .valueError else
